@@ -81,6 +81,13 @@ Theorem C09_file_rows_kept : forall rate_us plus tab ls l, In l ls ->
 Proof. exact file_rows_kept. Qed.
 Print Assumptions C09_file_rows_kept.
 
+(* when no line of the interpolation range is absent (e.g. a gap-free pass during which the error crosses zero upwards) the orbit
+   computation is not needed: every row of the grid is a record of the file *)
+Theorem C09_nothing_missing : forall rate_us plus tab ls r s,
+  missed rate_us plus tab ls = [] -> grid_row rate_us plus tab ls r = Some s -> exists k, s = FileRow k.
+Proof. exact nothing_missing. Qed.
+Print Assumptions C09_nothing_missing.
+
 (* nominal time (us) of an absent line m: the first record's time plus (m - its number) line periods *)
 Theorem C09_missed_times : forall step_us n0 t0 rest m,
   missed_time_us step_us ((n0, t0) :: rest) m = t0 * 1000 + (m - n0) * step_us.
